@@ -244,38 +244,30 @@ def case_flowc(ctx, case, be=None):
         ctx.oracle(False, f'{what} raised {type(e).__name__}: {str(e)[:100]} {tag(be)}', case)
         return
     ctx.count('flowc', be or 'default')
-    # as written (leaf totals per tree; branch points only; terminal twigs 0; forking roots: any child's value)
-    model = parse_col(ctx.ask(f'c17.fc 1 | {wire}'))
-    bad = [i for i in sorted(impl) if (str(int(impl[i])) not in model[i].split('/') if impl[i] is not None else True)]
-    ctx.corr('' if not bad else f'{bad[0]}={impl[bad[0]]}', '' if not bad else f'{bad[0]}={model[bad[0]]}',
-             f'{what} vs the code\'s own scheme (branch points (L−d)·d, segments inherit their distal seed, forks = max child) {tag(be)}', case)
+    # as written (formula at branch points, leafs and roots, per tree; the other nodes inherit from their distal seed; forks = max child)
+    model = ctx.ask(f'c17.fc 1 | {wire}')
+    ctx.corr(show_col({i: (0 if v is None else v) for i, v in impl.items()}), model,
+             f'{what} vs the code\'s own scheme (branch points, leafs and roots (L−d)·d, segments inherit their distal seed, forks = max child) {tag(be)}', case)
     # fork rule on the returned column itself (children that are not forks keep their own value)
     badf = [i for i in sorted(impl) if tp.is_fork(i) and not any(tp.is_fork(c) for c in tp.ch[i])
             and impl[i] != max(impl[c] for c in tp.ch[i])]
     ctx.oracle(not badf, f'{what}: fork {badf and badf[0]} has {badf and impl[badf[0]]}, its children have '
                f'{badf and [impl[c] for c in tp.ch[badf[0]]]}: a fork takes its largest child\'s value {tag(be)}', case)
     # by the definition (`fcSpec`): number of tip-to-tip paths leaving the node towards its parent (per tree), forks
-    # taking their largest child's count — compared at EVERY node.  The two known deviations are classified exactly:
-    # Props/C17 `flow_centrality_counts_tip_paths` proves that the code's scheme equals the specification everywhere else.
+    # taking their largest child's count — at EVERY node, terminal twigs and roots included (Props/C17
+    # `flow_centrality_counts_tip_paths`: the code's scheme is this count).
     spec = parse_col(ctx.ask(f'c17.fcspec {wire}'))
     diff = [i for i in sorted(impl) if str(int(impl[i] or 0)) != spec[i]]
-    twig = [i for i in diff if tp.par[i] >= 0 and (tp.on_terminal_twig(i) if not tp.is_fork(i) else any(tp.on_terminal_twig(c) for c in tp.ch[i]))]
-    froot = [i for i in diff if tp.par[i] < 0 and len(tp.ch[i]) >= 2]
-    other = [i for i in diff if i not in twig and i not in froot]
-    ctx.count('flowc_deviation', f"twig={'y' if twig else 'n'} forking-root={'y' if froot else 'n'}")
-    if twig:
-        i = twig[0]
-        ctx.oracle(False, f'{what}: node {i} has {impl[i]}, but {spec[i]} tip-to-tip paths run through it towards the root '
-                   f'(forks: largest child) {tag(be)}', case, signature='flow_centrality/terminal-twig/zero-instead-of-tip-count')
-    if froot:
-        i = froot[0]
-        ctx.oracle(False, f'{what}: forking root {i} has {impl[i]} (the value of whichever of its segments is visited first), but no tip-to-tip '
-                   f'path leaves a root towards a parent: expected {spec[i]} {tag(be)}', case, signature='flow_centrality/forking-root/inherits-first-segment')
-    if other:
-        i = other[0]
-        ctx.oracle(False, f'{what}: node {i} has {impl[i]}, but {spec[i]} tip-to-tip paths run through it towards the root '
-                   f'(forks: largest child) {tag(be)}', case)
-    if not diff:
+    ctx.count('flowc_nodes', 'terminal-twig' if any(tp.par[i] >= 0 and tp.on_terminal_twig(i) for i in impl) else 'no-twig')
+    if tp.forking_roots():
+        ctx.count('flowc_nodes', 'forking-root')
+    if diff:
+        i = diff[0]
+        kind = ('forking root' if tp.par[i] < 0 and len(tp.ch[i]) >= 2 else 'root' if tp.par[i] < 0 else
+                'terminal-twig node' if not tp.is_fork(i) and tp.on_terminal_twig(i) else 'fork' if tp.is_fork(i) else 'node')
+        ctx.oracle(False, f'{what}: {kind} {i} has {impl[i]}, but {spec[i]} tip-to-tip paths run through it towards the root '
+                   f'(forks: largest child; no path leaves a root towards a parent) {tag(be)}', case)
+    else:
         ctx.oracle(True, what, case)
 
 
@@ -593,9 +585,7 @@ def case_nlist(ctx, case, be=None):
         elif fn == 'bending_flow':
             model = ctx.ask(f'c17.bend {pre} | {post} | {wire}')
         else:
-            m = parse_col(ctx.ask(f'c17.fc 1 | {wire}'))
-            im = parse_col(impl)
-            model = impl if all(im[i] in m[i].split('/') for i in im) else ' '.join(f'{i}={m[i]}' for i in sorted(m))
+            model = ctx.ask(f'c17.fc 1 | {wire}')
         ctx.corr(impl, model, f'{what}: neuron {k} vs the single-neuron model {tag(be)}', case)
 
 
